@@ -112,7 +112,7 @@ Proof.
   intros HI Hok. destruct (l_dead (snd s)) eqn:Hd; [rewrite astep_dead; assumption|].
   destruct s as [f l]. destruct HI as [Hb Hn Hs Hf Ht]. simpl in *.
   unfold astep, act; simpl. rewrite Hd.
-  destruct a as [t|b|t p|p m|t| |p|]; simpl in Hok; try contradiction.
+  destruct a as [t|b|t p|p m|t| |p| |p|b]; simpl in Hok; try contradiction.
   - (* create *)
     unfold create_tmp. destruct (create_excl t tmp_mode f) as [[f' i]|] eqn:E.
     + apply create_excl_spec in E as (Hnone & Hi & Hnext & Hlt & Hlo & Hig & Hio).
@@ -179,6 +179,8 @@ Proof.
     + intros q j H. discriminate.
   - (* fail *)
     constructor; simpl; auto; intros; discriminate.
+  - constructor; simpl; auto; intros; discriminate.
+  - constructor; simpl; auto.
 Qed.
 
 Lemma SInv_seq_run acts s : SInv s -> Forall xaction_ok acts -> SInv (seq_run acts s).
@@ -206,7 +208,7 @@ Proof.
   intros HI Hok [Hlt Hfd]. destruct (l_dead (snd s)) eqn:Hd.
   { rewrite astep_dead by assumption. split; [split|]; auto. }
   destruct s as [f l]. simpl in *. unfold astep, act; simpl. rewrite Hd.
-  destruct a as [t|b|t p|p m|t| |p|]; simpl in Hok; try contradiction.
+  destruct a as [t|b|t p|p m|t| |p| |p|b]; simpl in Hok; try contradiction.
   - unfold create_tmp. destruct (create_excl t tmp_mode f) as [[f' j]|] eqn:E.
     + apply create_excl_spec in E as (Hnone & Hi & Hnext & Hlt' & Hlo & Hig & Hio). simpl.
       split; [split|].
@@ -233,6 +235,40 @@ Proof.
     + apply chmod_bytes_of.
   - simpl. split; [split|]; simpl; auto. discriminate.
   - simpl. split; [split|]; simpl; auto. discriminate.
+  - simpl. split; [split|]; simpl; auto. discriminate.
+  - simpl. split; [split|]; simpl; auto.
+Qed.
+
+(* ---------- 2b. the branch for device nodes changes nothing in the file system ---------- *)
+
+Definition neutral (a : action) : Prop :=
+  match a with AOpenDev _ | AWriteDev _ | AFail => True | _ => False end.
+
+Lemma neutral_run acts s : Forall neutral acts -> fst (seq_run acts s) = fst s.
+Proof.
+  intros HF. revert s. induction HF as [|a acts Ha HF IH]; intros s; [reflexivity|].
+  rewrite seq_run_cons, IH. unfold astep, act. destruct (l_dead (snd s)); [reflexivity|].
+  destruct a; simpl in Ha; try contradiction; reflexivity.
+Qed.
+
+Lemma special_neutral o : Forall neutral (prog_special o).
+Proof.
+  unfold prog_special.
+  assert (Hw : forall chunks tail, Forall neutral tail -> Forall neutral (map AWriteDev chunks ++ tail)).
+  { intros chunks tail Ht. induction chunks; simpl; [assumption|]. constructor; simpl; auto. }
+  destruct (o_fault o); try (repeat constructor; fail);
+    (constructor; [exact I|]; apply Hw; destruct (o_dec o); try destruct (o_optional o); repeat constructor).
+Qed.
+
+Lemma neutral_xok acts : Forall neutral acts -> Forall xaction_ok acts.
+Proof.
+  intros HF. induction HF as [|a acts Ha HF IH]; constructor; [|assumption].
+  destruct a; simpl in Ha; try contradiction; exact I.
+Qed.
+
+Lemma neutral_no_rename acts t p : Forall neutral acts -> ~ In (ARename t p) acts.
+Proof.
+  intros HF Hin. rewrite Forall_forall in HF. apply HF in Hin. exact Hin.
 Qed.
 
 (* ---------- 3. whole contents ---------- *)
@@ -290,12 +326,18 @@ Section Whole.
     - rewrite astep_dead by assumption. assumption.
   Qed.
 
+  Lemma Safe_neutral acts s : Forall neutral acts -> Safe acts s.
+  Proof.
+    intros HF. revert s. induction HF as [|a acts Ha HF IH]; intros s; simpl; [trivial|].
+    split; [|apply IH]. destruct a; simpl in Ha; try contradiction; split; simpl; trivial.
+  Qed.
+
   Lemma Whole_step a s : SInv s -> Whole s -> pre a s -> Whole (astep a s).
   Proof.
     intros HI HW [Hok Hpre]. destruct (l_dead (snd s)) eqn:Hd; [rewrite astep_dead; assumption|].
     destruct s as [f l]. destruct HI as [Hb Hn Hs Hf Ht]. unfold Whole in *. simpl in *.
     unfold astep, act; simpl. rewrite Hd.
-    destruct a as [t|b|t p|p m|t| |p|]; simpl in Hok; try contradiction.
+    destruct a as [t|b|t p|p m|t| |p| |p|b]; simpl in Hok; try contradiction.
     - unfold create_tmp. destruct (create_excl t tmp_mode f) as [[f' j]|] eqn:E; simpl; [|assumption].
       apply create_excl_spec in E as (Hnone & Hi & Hnext & Hlt' & Hlo & Hig & Hio).
       intros q i Hq Hl. assert (q <> t) by congruence.
@@ -320,6 +362,8 @@ Section Whole.
     - simpl. intros q i Hq Hl. assert (q <> t) by congruence.
       rewrite unlink_lookup_other in Hl by assumption. eauto.
     - simpl. assumption.
+    - simpl. assumption.
+    - simpl. assumption.
   Qed.
 
   Lemma Present_step a s : xaction_ok a -> Present s -> Present (astep a s).
@@ -327,7 +371,7 @@ Section Whole.
     intros Hok HP. destruct (l_dead (snd s)) eqn:Hd; [rewrite astep_dead; assumption|].
     destruct s as [f l]. unfold Present in *. simpl in *.
     unfold astep, act; simpl. rewrite Hd.
-    destruct a as [t|b|t p|p m|t| |p|]; simpl in Hok; try contradiction.
+    destruct a as [t|b|t p|p m|t| |p| |p|b]; simpl in Hok; try contradiction.
     - unfold create_tmp. destruct (create_excl t tmp_mode f) as [[f' j]|] eqn:E; simpl; [|assumption].
       apply create_excl_spec in E as (Hnone & Hi & Hnext & Hlt' & Hlo & Hig & Hio).
       intros q Hq H0. rewrite Hlo by congruence. auto.
@@ -340,6 +384,8 @@ Section Whole.
       + rewrite Hoth by congruence. auto.
     - simpl. intros q Hq H0. rewrite chmod_lookup. auto.
     - simpl. intros q Hq H0. rewrite unlink_lookup_other by congruence. auto.
+    - simpl. assumption.
+    - simpl. assumption.
     - simpl. assumption.
   Qed.
 
@@ -376,7 +422,7 @@ Section Whole.
     assert (Hw : forall chunks tail, Forall xaction_ok tail -> Forall xaction_ok (map AWrite chunks ++ tail)).
     { intros chunks tail Ht. induction chunks; simpl; [assumption|]. constructor; simpl; auto. }
     pose proof (is_tmp_o_tmp o) as Ht.
-    unfold prog_obj.
+    unfold prog_obj. destruct (o_special o); [apply neutral_xok, special_neutral|].
     destruct (o_fault o); [| repeat constructor | |];
       (constructor; [exact Ht|]; apply Hw;
        destruct (o_dec o) as [[m|]| |]; [| | destruct (o_optional o) |]; repeat constructor; simpl; auto).
@@ -395,6 +441,7 @@ Section Whole.
     pose proof (prog_obj_xok o) as Hx.
     pose proof (is_tmp_o_tmp o) as Ht.
     unfold prog_obj in *.
+    destruct (o_special o) eqn:Esp; [apply Safe_neutral, special_neutral|].
     destruct (o_fault o) eqn:Efl;
       try (simpl; split; [split; simpl; trivial | trivial]; fail).
     all: (simpl Safe; split; [split; [exact Ht | trivial]|]).
@@ -436,6 +483,7 @@ Section Whole.
     destruct (l_dead (snd s)) eqn:Hd; [rewrite seq_run_dead by assumption; reflexivity|].
     pose proof (is_tmp_o_tmp o) as Hot.
     unfold prog_obj.
+    destruct (o_special o) eqn:Esp; [rewrite neutral_run by apply special_neutral; reflexivity|].
     destruct (o_fault o) eqn:Efl;
       try (rewrite seq_run_cons; unfold astep, act; rewrite Hd; reflexivity).
     all: rewrite seq_run_cons; destruct s as [f l]; simpl in Hd.
@@ -482,6 +530,24 @@ End Whole.
 
 (* ---------- 3b. a successful run installs every member ---------- *)
 
+(* the directory entry of a non-temp path is only ever changed by a rename onto it *)
+Lemma lookup_step a s q :
+  xaction_ok a -> is_tmp q = false -> (forall t, a <> ARename t q) ->
+  lookup q (fst (astep a s)) = lookup q (fst s).
+Proof.
+  intros Hok Hq Hnr. destruct (l_dead (snd s)) eqn:Hd; [rewrite astep_dead by assumption; reflexivity|].
+  destruct s as [f l]. simpl in *. unfold astep, act; simpl. rewrite Hd.
+  destruct a as [t|b|t p|p m|t| |p| |p|b]; simpl in Hok; try contradiction; try reflexivity.
+  - unfold create_tmp. destruct (create_excl t tmp_mode f) as [[f' j]|] eqn:E; simpl; [|reflexivity].
+    apply create_excl_spec in E as (_ & _ & _ & _ & Hlo & _ & _). apply Hlo. congruence.
+  - destruct (l_fd l) as [j|]; simpl; [|reflexivity]. apply write_chunk_lookup.
+  - destruct (rename t p f) as [f'|] eqn:E; simpl; [|reflexivity].
+    apply rename_spec in E as (j & _ & _ & _ & Hoth & _ & _).
+    apply Hoth; [congruence|]. intros ->. apply (Hnr t). reflexivity.
+  - simpl. apply chmod_lookup.
+  - simpl. apply unlink_lookup_other. congruence.
+Qed.
+
 Lemma content_step a s q :
   SInv s -> xaction_ok a -> is_tmp q = false -> (forall t, a <> ARename t q) ->
   content (fst (astep a s)) q = content (fst s) q.
@@ -489,7 +555,7 @@ Proof.
   intros HI Hok Hq Hnr. destruct (l_dead (snd s)) eqn:Hd; [rewrite astep_dead by assumption; reflexivity|].
   destruct s as [f l]. destruct HI as [Hb Hn Hs Hf Ht]. simpl in *.
   unfold astep, act; simpl. rewrite Hd. unfold content.
-  destruct a as [t|b|t p|p m|t| |p|]; simpl in Hok; try contradiction.
+  destruct a as [t|b|t p|p m|t| |p| |p|b]; simpl in Hok; try contradiction.
   - unfold create_tmp. destruct (create_excl t tmp_mode f) as [[f' j]|] eqn:E; simpl; [|reflexivity].
     apply create_excl_spec in E as (Hnone & Hi & Hnext & Hlt' & Hlo & Hig & Hio).
     rewrite Hlo by congruence. destruct (lookup q f) as [i|] eqn:El; [|reflexivity].
@@ -505,6 +571,8 @@ Proof.
     unfold bytes_of, iget. rewrite Hino. reflexivity.
   - simpl. rewrite chmod_lookup. destruct (lookup q f) as [i|]; [|reflexivity]. apply chmod_bytes_of.
   - simpl. rewrite unlink_lookup_other by congruence. reflexivity.
+  - reflexivity.
+  - reflexivity.
   - reflexivity.
 Qed.
 
@@ -527,31 +595,41 @@ Proof.
   apply in_map_iff in H as (b & Hb & _). discriminate.
 Qed.
 
-Lemma prog_obj_renames o t q : In (ARename t q) (prog_obj o) -> q = o_path o.
+Lemma prog_obj_renames o t q : In (ARename t q) (prog_obj o) -> q = o_path o /\ o_special o = false.
 Proof.
-  unfold prog_obj.
+  unfold prog_obj. destruct (o_special o).
+  { intros H. exfalso. exact (neutral_no_rename _ t q (special_neutral o) H). }
+  intros H. split; [|reflexivity]. revert H.
   destruct (o_fault o); (intros [H|H]; [discriminate|]); try (destruct H; fail);
     apply in_writes_rename in H;
     destruct (o_dec o) as [[m|]| |]; try destruct (o_optional o); simpl in H;
     repeat (destruct H as [H|H]; [inversion H; subst; try reflexivity; try discriminate|]); try destruct H.
 Qed.
 
-Lemma prog_renames l t q : In (ARename t q) (prog l) -> In q (map o_path l).
+(* a rename only ever targets the path of an output that is NOT a device node *)
+Lemma prog_renames_regular l t q :
+  In (ARename t q) (prog l) -> exists o, In o l /\ o_special o = false /\ o_path o = q.
 Proof.
   unfold prog. induction l as [|o l IH]; simpl; [intros []|].
   intros H. apply in_app_or in H as [H|H].
-  - left. symmetry. eapply prog_obj_renames; eassumption.
-  - right. apply IH; assumption.
+  - apply prog_obj_renames in H as [Hq Hs]. exists o. auto.
+  - destruct (IH H) as (o' & Ho & Hs & Hq). exists o'. auto.
+Qed.
+
+Lemma prog_renames l t q : In (ARename t q) (prog l) -> In q (map o_path l).
+Proof.
+  intros H. apply prog_renames_regular in H as (o & Ho & _ & <-). apply in_map. assumption.
 Qed.
 
 Lemma obj_installs o s :
   let s' := seq_run (prog_obj o) s in
+  o_special o = false ->
   l_dead (snd s') = false -> o_ok o = true -> content (fst s') (o_path o) = Some (o_new o).
 Proof.
-  intros s' Halive Hok.
+  intros s' Esp Halive Hok.
   destruct (l_dead (snd s)) eqn:Hd.
   { unfold s' in Halive. rewrite seq_run_dead in Halive by assumption. congruence. }
-  unfold s' in *. clear s'. unfold o_ok in Hok. unfold prog_obj in *.
+  unfold s' in *. clear s'. unfold o_ok in Hok. unfold prog_obj in *. rewrite Esp in *.
   destruct (o_fault o) eqn:Efl;
     try (rewrite seq_run_cons in Halive; unfold astep, act in Halive; rewrite Hd in Halive; simpl in Halive; discriminate).
   all: destruct (o_dec o) as [mode| |] eqn:Edec; [|discriminate|discriminate].
@@ -583,9 +661,10 @@ Qed.
 Lemma prog_installs l s :
   SInv s -> NoDup (map o_path l) -> forallb (fun o => negb (is_tmp (o_path o))) l = true ->
   l_dead (snd (seq_run (prog l) s)) = false ->
-  forall o, In o l -> o_ok o = true -> content (fst (seq_run (prog l) s)) (o_path o) = Some (o_new o).
+  forall o, In o l -> o_special o = false -> o_ok o = true ->
+    content (fst (seq_run (prog l) s)) (o_path o) = Some (o_new o).
 Proof.
-  revert s. unfold prog. induction l as [|o1 l IH]; intros s HI Hnd Hnt Halive o Hin Hok; [destruct Hin|].
+  revert s. unfold prog. induction l as [|o1 l IH]; intros s HI Hnd Hnt Halive o Hin Hsp Hok; [destruct Hin|].
   simpl in *. inversion Hnd as [|x xs Hnotin Hnd']; subst.
   apply andb_true_iff in Hnt as [Hnt1 Hnt]. apply negb_true_iff in Hnt1.
   rewrite seq_run_app in *.
@@ -642,6 +721,9 @@ Section System.
     co_keep : forall i, Frozen s0 i -> Frozen s i /\ bytes_of (fst s) i = bytes_of f0 i;
     co_tmps : forall t, is_tmp t = true -> lookup t (fst (seq_run rest s)) = lookup t f0;
     co_det : seq_run rest s = seq_run (prog objs) s0;
+    co_suffix : exists done, prog objs = done ++ rest;
+    co_entries : forall q, is_tmp q = false -> (forall t, ~ In (ARename t q) (prog objs)) ->
+                   lookup q (fst s) = lookup q f0;
   }.
 
   Definition GInv (readers0 : list thr) (x : fs * list thr) : Prop :=
@@ -667,11 +749,13 @@ Section System.
     - intros i H. split; [exact H | reflexivity].
     - intros t Ht. apply (prog_tmps objs s0 Hout t Ht).
     - reflexivity.
+    - exists []. reflexivity.
+    - intros q _ _. reflexivity.
   Qed.
 
   Lemma Core_step a rest s : Core s (a :: rest) -> Core (astep a s) rest.
   Proof.
-    intros [HI HS HW HP HK HT HD]. destruct HS as [Hpre HS]. pose proof Hpre as [Hx _].
+    intros [HI HS HW HP HK HT HD [done Hsuf] HE]. destruct HS as [Hpre HS]. pose proof Hpre as [Hx _].
     constructor.
     - apply SInv_step; assumption.
     - exact HS.
@@ -681,6 +765,9 @@ Section System.
       destruct (Frozen_step a s i HI Hx Hf) as [Hf' Hb']. split; [assumption | congruence].
     - intros t Ht. rewrite <- seq_run_cons. apply HT. assumption.
     - rewrite <- seq_run_cons. exact HD.
+    - exists (done ++ [a]). rewrite <- app_assoc. exact Hsuf.
+    - intros q Hq Hnr. rewrite lookup_step; [apply HE; assumption | assumption | assumption |].
+      intros t ->. apply (Hnr t). rewrite Hsuf. apply in_or_app. right. left. reflexivity.
   Qed.
 
   Lemma RInv_ext_step a s r0 r : SInv s -> xaction_ok a -> RInv s r0 r -> RInv (astep a s) r0 r.
@@ -701,7 +788,7 @@ Section System.
     destruct HR as [Ha Hacts Hlog Hfd Hh]. simpl in Ha, Hacts, Hlog, Hfd, Hh.
     apply andb_true_iff in Hacts as [Hact Hacts].
     unfold step_thread, act. rewrite Ha.
-    destruct a as [t|b|t p|p m|t| |p|]; simpl in Hact; try discriminate.
+    destruct a as [t|b|t p|p m|t| |p| |p|b]; simpl in Hact; try discriminate.
     - (* open *)
       simpl. split; [reflexivity|]. apply negb_true_iff in Hact.
       constructor; simpl; try assumption; try reflexivity.
@@ -912,13 +999,25 @@ Section Theorems.
     exact (co_tmps _ _ _ _ HC t Ht).
   Qed.
 
+  (* a path at which only device-node outputs are restored keeps its directory entry, at every moment *)
+  Lemma special_entry_never_replaced q :
+    is_tmp q = false ->
+    (forall o, In o objs -> o_path o = q -> o_special o = true) ->
+    lookup q (fst final) = lookup q f0.
+  Proof.
+    destruct final_inv as (l & rest & rs & Hsnd & HC & HF).
+    intros Hq Hsp. apply (co_entries _ _ _ _ HC q Hq).
+    intros t Hin. apply prog_renames_regular in Hin as (o & Ho & Hs & Hp).
+    rewrite (Hsp o Ho Hp) in Hs. discriminate.
+  Qed.
+
   Lemma success_installs_new l rs o :
     NoDup (map o_path objs) ->
     snd final = (l, []) :: rs -> l_dead l = false ->
-    In o objs -> o_ok o = true -> content (fst final) (o_path o) = Some (o_new o).
+    In o objs -> o_special o = false -> o_ok o = true -> content (fst final) (o_path o) = Some (o_new o).
   Proof.
     destruct final_inv as (l' & rest & rs' & Hsnd & HC & HF).
-    intros Hnd Hfin Halive Hin Hok. rewrite Hsnd in Hfin. inversion Hfin; subst.
+    intros Hnd Hfin Halive Hin Hsp Hok. rewrite Hsnd in Hfin. inversion Hfin; subst.
     pose proof (co_det _ _ _ _ HC) as Hdet. unfold seq_run at 1 in Hdet. simpl in Hdet.
     pose proof (fs_ok_SInv f0 init_local Hfs eq_refl) as HI0.
     pose proof (prog_installs objs (s0 f0) HI0 Hnd Hout) as Hinst.
@@ -960,7 +1059,7 @@ Lemma firstn_shape {A} (x : A) l1 l2 n :
 Proof. simpl. rewrite firstn_app_2. reflexivity. Qed.
 
 Lemma mode_window f0 o m readers :
-  is_tmp (o_path o) = false -> o_dec o = DecOk (Some m) -> o_fault o = FNone ->
+  is_tmp (o_path o) = false -> o_special o = false -> o_dec o = DecOk (Some m) -> o_fault o = FNone ->
   lookup (o_tmp o) f0 = None ->
   let k := S (S (length (o_chunks o))) in
   let f_between := fst (run (repeat 0%nat k) f0 [o] readers) in
@@ -968,10 +1067,10 @@ Lemma mode_window f0 o m readers :
   content f_between (o_path o) = Some (o_new o) /\ mode_at f_between (o_path o) = Some tmp_mode
   /\ content f_after (o_path o) = Some (o_new o) /\ mode_at f_after (o_path o) = Some m.
 Proof.
-  intros Hp Hdec Hfl Hnone k f_between f_after.
+  intros Hp Hsp Hdec Hfl Hnone k f_between f_after.
   assert (Hprog : prog [o] = ACreateTmp (o_tmp o) :: map AWrite (o_chunks o) ++
                              [ARename (o_tmp o) (o_path o); AChmod (o_path o) m]).
-  { unfold prog. simpl. rewrite app_nil_r. unfold prog_obj. rewrite Hfl, Hdec. reflexivity. }
+  { unfold prog. simpl. rewrite app_nil_r. unfold prog_obj. rewrite Hsp, Hfl, Hdec. reflexivity. }
   assert (Hlen : length (map AWrite (o_chunks o)) = length (o_chunks o)) by apply map_length.
   (* the state after create + all writes *)
   destruct (create_excl (o_tmp o) tmp_mode f0) as [[f1 i]|] eqn:E;
@@ -1016,16 +1115,23 @@ Qed.
 
 (* ---------- 7. the shape of the system calls of the extraction ---------- *)
 
-(* an output path is only ever named as the target of a rename from a temp file of the same directory, or by the
-   chmod that follows; every other call names a temp file *)
-Definition ev_ok (outs : list path) (e : event) : Prop :=
+(* [reg] = paths of the outputs that are restored through a temp file (previous state: absent, a regular file, a
+   symbolic link to one, ...), [spec] = paths of the outputs that are device nodes.
+   A path in [reg] is only ever named as the target of a rename from a temp file of the same directory, or by the
+   chmod that follows; a path in [spec] is only ever opened for writing and written into (never the target of a
+   rename, never chmod'ed); every other call names a temp file. *)
+Definition ev_ok (reg spec : list path) (e : event) : Prop :=
   match e with
   | ECreate t => is_tmp t = true
-  | EWrite t _ => is_tmp t = true
+  | EWrite t _ => is_tmp t = true \/ In t spec
   | EUnlink t => is_tmp t = true
-  | ERename t p => is_tmp t = true /\ fst t = fst p /\ In p outs
-  | EChmod p _ => In p outs
+  | ERename t p => is_tmp t = true /\ fst t = fst p /\ In p reg
+  | EChmod p _ => In p reg
+  | EOpenW p => In p spec
   end.
+
+Definition reg_paths (objs : list obj) : list path := map o_path (filter (fun o => negb (o_special o)) objs).
+Definition spec_paths (objs : list obj) : list path := map o_path (filter o_special objs).
 
 Lemma trace_dead acts s : l_dead (snd s) = true -> trace acts s = [].
 Proof. intros H. destruct acts; simpl; [reflexivity|]. rewrite H. reflexivity. Qed.
@@ -1051,12 +1157,40 @@ Proof.
   unfold act. rewrite Hd. destruct (l_fd l); simpl; apply IH.
 Qed.
 
-Lemma trace_obj_ok outs o s : In (o_path o) outs -> Forall (ev_ok outs) (trace (prog_obj o) s).
+Lemma trace_devwrites (P : event -> Prop) chunks tail f l :
+  (forall n, P (EWrite (l_path l) n)) ->
+  Forall P (trace tail (f, l)) ->
+  Forall P (trace (map AWriteDev chunks ++ tail) (f, l)).
+Proof.
+  intros Hw Ht. induction chunks as [|b chunks IH]; simpl map; simpl app; [apply Ht|].
+  simpl trace. destruct (l_dead l) eqn:Hd; [constructor|].
+  constructor; [apply Hw|].
+  unfold act. rewrite Hd. simpl. apply IH.
+Qed.
+
+Lemma trace_special_ok reg spec o s : In (o_path o) spec -> Forall (ev_ok reg spec) (trace (prog_special o) s).
 Proof.
   intros Hin. destruct (l_dead (snd s)) eqn:Hd; [rewrite trace_dead by assumption; constructor|].
+  destruct s as [f l]. simpl in Hd. unfold prog_special.
+  destruct (o_fault o); simpl trace; cbn [fst snd]; rewrite Hd; try (apply Forall_nil).
+  all: assert (Hact : act (AOpenDev (o_path o)) f l = (f, mkLocal None (o_path o) (l_log l) false))
+         by (unfold act; rewrite Hd; reflexivity).
+  all: rewrite Hact; constructor; [exact Hin|].
+  all: apply trace_devwrites; [intros n; right; exact Hin|].
+  all: destruct (o_dec o); try destruct (o_optional o); simpl; constructor.
+Qed.
+
+Lemma trace_obj_ok reg spec o s :
+  (o_special o = false -> In (o_path o) reg) -> (o_special o = true -> In (o_path o) spec) ->
+  Forall (ev_ok reg spec) (trace (prog_obj o) s).
+Proof.
+  intros Hreg Hspec. unfold prog_obj.
+  destruct (o_special o) eqn:Esp; [apply trace_special_ok; auto|].
+  assert (Hin : In (o_path o) reg) by auto. clear Hreg Hspec.
+  destruct (l_dead (snd s)) eqn:Hd; [rewrite trace_dead by assumption; constructor|].
   pose proof (is_tmp_o_tmp o) as Ht.
   assert (Hdir : fst (o_tmp o) = fst (o_path o)) by reflexivity.
-  destruct s as [f l]. simpl in Hd. unfold prog_obj.
+  destruct s as [f l]. simpl in Hd.
   destruct (o_fault o) eqn:Efl; try (simpl; rewrite Hd; constructor).
   all: assert (Hact : act (ACreateTmp (o_tmp o)) f l =
                       match create_excl (o_tmp o) tmp_mode f with
@@ -1066,20 +1200,25 @@ Proof.
   all: simpl trace; cbn [fst snd]; rewrite Hd, Hact.
   all: destruct (create_excl (o_tmp o) tmp_mode f) as [[f1 i]|] eqn:E; cbn [snd fst l_dead kill];
     [ constructor; [exact Ht|] | apply Forall_forall; intros e He; rewrite trace_dead in He by reflexivity; destruct He ].
-  all: apply trace_writes; [intros n; exact Ht|]; intros f'.
+  all: apply trace_writes; [intros n; left; exact Ht|]; intros f'.
   all: destruct (o_dec o) as [[m|]| |]; [| | destruct (o_optional o) |].
   all: simpl trace; cbn [fst snd l_dead]; unfold act; cbn [l_dead];
        try (destruct (rename (o_tmp o) (o_path o) f') as [f3|]; cbn [fst snd l_dead close kill]).
   all: repeat constructor; simpl; auto.
 Qed.
 
-Lemma trace_prog_ok outs l s : incl (map o_path l) outs -> Forall (ev_ok outs) (trace (prog l) s).
+Lemma trace_prog_ok reg spec l s :
+  incl (reg_paths l) reg -> incl (spec_paths l) spec -> Forall (ev_ok reg spec) (trace (prog l) s).
 Proof.
-  revert s. unfold prog. induction l as [|o l IH]; intros s Hincl; simpl; [destruct (l_dead (snd s)); constructor|].
+  revert s. unfold prog. induction l as [|o l IH]; intros s Hr Hs; simpl; [destruct (l_dead (snd s)); constructor|].
   rewrite trace_app. apply Forall_app. split.
-  - apply trace_obj_ok. apply Hincl. left; reflexivity.
-  - apply IH. intros x Hx. apply Hincl. right; assumption.
+  - apply trace_obj_ok; intros Esp.
+    + apply Hr. unfold reg_paths. simpl. rewrite Esp. left; reflexivity.
+    + apply Hs. unfold spec_paths. simpl. rewrite Esp. left; reflexivity.
+  - apply IH.
+    + intros x Hx. apply Hr. unfold reg_paths in *. simpl. destruct (o_special o); simpl; auto.
+    + intros x Hx. apply Hs. unfold spec_paths in *. simpl. destruct (o_special o); simpl; auto.
 Qed.
 
-Lemma trace_shape objs s : Forall (ev_ok (map o_path objs)) (trace (prog objs) s).
-Proof. apply trace_prog_ok. apply incl_refl. Qed.
+Lemma trace_shape objs s : Forall (ev_ok (reg_paths objs) (spec_paths objs)) (trace (prog objs) s).
+Proof. apply trace_prog_ok; apply incl_refl. Qed.
